@@ -521,6 +521,25 @@ for _f in sorted(_glob.glob("/verif/selftest/variants/b3/C*-b3-*.diff")):
     for _p in [_own] + _CROSS3.get(_name, []):
         case(_p, _p + "-agent-" + _name, "benign", "agent refactoring (round 3) " + _name + ": " + _desc, patch="selftest/variants/b3/" + _name + ".diff")
 
+# fourth round: refactorings aimed at the places the round-4 rules look at; the cross entries are the
+# other properties whose checks raised a false alarm on the variant before they were corrected
+_CROSS4 = {
+    "C03-b4-1": ["C14"], "C03-b4-4": ["C14"], "C05-b4-4": ["C03", "C04", "C12", "C14"],
+    "C07-b4-4": ["C04", "C06", "C10"], "C08-b4-1": ["C09"], "C08-b4-3": ["C03", "C04", "C06"],
+    "C08-b4-4": ["C06", "C07", "C10"], "C10-b4-3": ["C03"], "C11-b4-1": ["C14"], "C14-b4-4": ["C03"],
+    "C18-b4-1": ["C04"],
+}
+for _f in sorted(_glob.glob("/verif/selftest/variants/b4/C*-b4-*.diff")):
+    _name = os.path.basename(_f)[:-5]
+    _own = _name.split("-")[0]
+    _desc = ""
+    try:
+        _desc = (json.load(open(_f[:-5] + ".json")).get("summary") or "")[:140].replace("\n", " ")
+    except Exception:
+        pass
+    for _p in [_own] + _CROSS4.get(_name, []):
+        case(_p, _p + "-agent-" + _name, "benign", "agent refactoring (round 4) " + _name + ": " + _desc, patch="selftest/variants/b4/" + _name + ".diff")
+
 for _f in sorted(_glob.glob("/verif/selftest/variants/b/C*-b*.diff")):
     _name = os.path.basename(_f)[:-5]
     _own = _name.split("-")[0]
